@@ -198,6 +198,890 @@ def c04_refs(place: int, evaluate: bool, rscope: int, amb: int, mp: int, mq: int
     return shape_ok(place, stored)
 
 
+
+# ===================================================================================================
+# Widened vocabulary (review_C04): dict keys, class targets, chains, REQUIRED, shadowing, other
+# consumer signatures, programmatic containers, failing evaluations, other ways to build the ambient
+# scope, repeated / dotted reference scopes, evaluating queries.
+# ===================================================================================================
+import collections as _collections
+
+
+class Tok:
+  """hashable result of the probe source `vw04.hsrc` (usable as a dict key)"""
+
+  def __init__(self, v, sc):
+    self.v = v
+    self.sc = sc
+
+
+if not hasattr(world, '_vw04'):      # registered once per process, whatever name this module is imported under
+  _HC = []
+
+  @gin.configurable(module='vw04')
+  def hsrc(v=0):
+    t = Tok(v, gin.current_scope())
+    _HC.append(t)
+    return t
+
+  world._vw04 = dict(hsrc=hsrc, HC=_HC, Tok=Tok, NT=_collections.namedtuple('NT', 'a b'))
+HC = world._vw04['HC']
+Tok = world._vw04['Tok']
+NT = world._vw04['NT']
+
+
+def bound_val(scope, v0, v1, v2, va, vb=None):
+  """value bound at the longest applicable prefix of `scope` (bindings at '', r1, r1/r2, amb, a.b)"""
+  if scope[:2] == ['r1', 'r2']:
+    return v2
+  if scope[:1] == ['r1']:
+    return v1
+  if scope[:1] == ['amb']:
+    return va
+  if scope[:1] == ['a.b']:
+    return vb
+  return v0
+
+
+def _consts(**kw):
+  for name, v in kw.items():
+    gin.constant('vwc.' + name, v)
+
+
+def _bind4(sel):
+  return ['%s = %%vwc.V0' % sel, 'r1/%s = %%vwc.V1' % sel, 'r1/r2/%s = %%vwc.V2' % sel,
+          'amb/%s = %%vwc.VA' % sel]
+
+
+def _in_scope(scope_str, fn):
+  if scope_str:
+    with gin.config_scope(scope_str):
+      return fn()
+  return fn()
+
+
+# ---------------------------------------------------------------------------------------------------
+# item 2 (+5): references in dict KEY position
+# ---------------------------------------------------------------------------------------------------
+KPLACE = ['{{{R}: 1}}', "[{{'k': ({{{R}: [1]}},)}}]", '{{({R}, 1): 5}}', '{{{R}: 1, @z/vw04.hsrc{E}: 2}}',
+          '{{%m: 1}}']
+KAMB = ['', 'amb', 'x/r1', 'r1']
+
+
+def kdelivered(kp, p):
+  if kp == 0 or kp == 4:
+    return list(p)
+  if kp == 1:
+    return list(p[0]['k'][0])
+  if kp == 2:
+    return [list(p)[0][0]]
+  return list(p)
+
+
+def kshape_ok(kp, p):
+  with rt.native():
+    if kp in (0, 4):
+      return isinstance(p, dict) and len(p) == 1 and list(p.values()) == [1]
+    if kp == 1:
+      return (isinstance(p, list) and len(p) == 1 and isinstance(p[0], dict) and list(p[0]) == ['k'] and
+              isinstance(p[0]['k'], tuple) and len(p[0]['k']) == 1 and isinstance(p[0]['k'][0], dict) and
+              list(p[0]['k'][0].values()) == [[1]])
+    if kp == 2:
+      ks = list(p) if isinstance(p, dict) else []
+      return len(ks) == 1 and isinstance(ks[0], tuple) and len(ks[0]) == 2 and ks[0][1] == 1 and p[ks[0]] == 5
+    return isinstance(p, dict) and len(p) == 2 and list(p.values()) == [1, 2]
+
+
+def kmutate(kp, p):
+  with rt.native():
+    for d in kdelivered(kp, p):
+      if isinstance(d, Tok):
+        d.v = 'junk'
+        d.sc = ['junk']
+    if kp == 1:
+      p[0]['k'][0].clear()
+      p[0]['new'] = 'junk'
+      p.append('junk')
+    else:
+      p.clear()
+      p['junk'] = 'junk'
+
+
+def c04_keys(kp: int, evaluate: bool, rscope: int, amb: int, mp: int, ncalls: int, mut: bool,
+             v0: int, v1: int, v2: int, va: int, cp: int) -> bool:
+  """
+  pre: 0 <= kp < 5 and 0 <= rscope < 3 and 0 <= amb < 4 and 0 <= mp < 4 and 1 <= ncalls <= 3
+  """
+  world.fresh()
+  del HC[:]
+  kp = rt.pick(kp, 5)
+  evaluate = rt.flag(evaluate)
+  rscope = rt.pick(rscope, 3)
+  amb = rt.pick(amb, 4)
+  mp = rt.pick(mp, 4)
+  ncalls = rt.pick(ncalls, 4)
+  mut = rt.flag(mut)
+  rt.sig(('keys', kp, evaluate, rscope, amb, mp, ncalls, mut), nontrivial=mp != 1)
+  _consts(V0=v0, V1=v1, V2=v2, VA=va)
+  with rt.native():
+    E = '()' if evaluate else ''
+    ref = '@' + (RSCOPE[rscope] + '/' if RSCOPE[rscope] else '') + 'vw04.hsrc' + E
+    text = '\n'.join(_bind4('vw04.hsrc.v') + ['m = ' + ref,
+                                              'vw.cons.p = ' + KPLACE[kp].format(R=ref, E=E), ''])
+    gin.parse_config(text)
+    cfg_before = gin.config_str()
+    stored_before = repr(gin.query_parameter('vw.cons.p'))
+  ambient = KAMB[amb].split('/') if amb else []
+  # scope of the reference R as seen from the consumer of R (for kp 4 that consumer is the macro m)
+  eval_ctx = ['m'] if kp == 4 else ambient
+  firsts = []
+  for c in range(ncalls):
+    del world.LOG[:]
+    del HC[:]
+    pos, kw = [], {}
+    if mp == 1:
+      pos.append(cp)
+    elif mp == 2:
+      pos.append(gin.REQUIRED)
+    elif mp == 3:
+      kw['p'] = gin.REQUIRED
+    _in_scope(KAMB[amb], lambda: world.cons(*pos, **kw))
+    if len(world.LOG) != 1:
+      return rt.no('consumer not called exactly once')
+    _, args, _, seen = world.LOG[0]
+    p = args[0]
+    if seen != ambient:
+      return rt.no('consumer saw another scope')
+    if mp == 1:
+      if HC or not rt.same('p', p, cp):
+        return rt.no('caller-supplied p: reference evaluated or value replaced')
+      continue
+    if not kshape_ok(kp, p):
+      return rt.no('shape of the delivered value')
+    got = kdelivered(kp, p)
+    want = []                               # (scope, value) per delivered key
+    sc = RSCOPE[rscope].split('/') if rscope else None
+    want.append(sc)
+    if kp == 3:
+      want.append(['z'])
+    if len(got) != len(want):
+      return rt.no('number of keys')
+    if evaluate:
+      if len(HC) != len(want):
+        return rt.no('source called %d times' % len(HC))
+      for g, w in zip(got, want):
+        w = eval_ctx if w is None else w
+        if not isinstance(g, Tok) or g.sc != w or not rt.same('keyv', g.v, bound_val(w, v0, v1, v2, va)):
+          return rt.no('evaluated key: scope or value')
+        if not any(g is h for h in HC) or any(g is f for f in firsts):
+          return rt.no('evaluated key is not a fresh result')
+      if len(got) == 2 and got[0] is got[1]:
+        return False
+      firsts.extend(got)
+    else:
+      if HC:
+        return rt.no('unevaluated reference was called')
+      for g, w in zip(got, want):
+        if not callable(g):
+          return rt.no('unevaluated key is not callable')
+        del HC[:]
+        res = _in_scope(KAMB[amb], g)
+        w = ambient if w is None else w
+        if len(HC) != 1 or res is not HC[0] or res.sc != w or \
+            not rt.same('keyres', res.v, bound_val(w, v0, v1, v2, va)):
+          return rt.no('calling the delivered key')
+    if mut:
+      kmutate(kp, p)
+  with rt.native():
+    if gin.config_str() != cfg_before:
+      return rt.no('config string changed')
+    if repr(gin.query_parameter('vw.cons.p')) != stored_before:
+      return rt.no('stored value changed')
+  return True
+
+
+# ---------------------------------------------------------------------------------------------------
+# items 3, 11: the reference target is a class / the delivered callable is used in other ways
+# ---------------------------------------------------------------------------------------------------
+TGT = ['vw.Kinit', 'vw.Kreg', 'vw.Kmeth', 'vw.src']
+TPARAM = ['vw.Kinit.a', 'vw.Kreg.a', 'vw.Kmeth.meth.a', 'vw.src.v']
+TPLACE = ['{R}', "{{'k': ({R},)}}"]
+
+
+def c04_targets(tgt: int, evaluate: bool, rscope: int, amb: int, how: int, tp: int, ncalls: int,
+                v0: int, v1: int, v2: int, va: int, cp: int) -> bool:
+  """
+  pre: 0 <= tgt < 4 and 0 <= rscope < 3 and 0 <= amb < 4 and 0 <= how < 4 and 0 <= tp < 2 and 1 <= ncalls <= 3
+  """
+  world.fresh()
+  tgt = rt.pick(tgt, 4)
+  evaluate = rt.flag(evaluate)
+  rscope = rt.pick(rscope, 3)
+  amb = rt.pick(amb, 4)
+  how = rt.pick(how, 4)
+  tp = rt.pick(tp, 2)
+  ncalls = rt.pick(ncalls, 4)
+  if evaluate and tgt != 2 and how:
+    rt.discard()          # an evaluated Kinit / Kreg / src result is not used any further
+  rt.sig(('targets', tgt, evaluate, rscope, amb, how, tp, ncalls))
+  _consts(V0=v0, V1=v1, V2=v2, VA=va)
+  with rt.native():
+    ref = '@' + (RSCOPE[rscope] + '/' if RSCOPE[rscope] else '') + TGT[tgt] + ('()' if evaluate else '')
+    gin.parse_config('\n'.join(_bind4(TPARAM[tgt]) + ['vw.cons.p = ' + TPLACE[tp].format(R=ref), '']))
+    cfg_before = gin.config_str()
+  ambient = KAMB[amb].split('/') if amb else []
+  rsc = RSCOPE[rscope].split('/') if rscope else None
+  klass = [world.Kinit, world.Kreg, world.Kmeth, None][tgt]
+  lname = ['Kinit', 'Kreg', 'Kmeth.meth', None][tgt]
+  firsts = []
+
+  def use(fn, kwname):
+    """runs fn (arguments per `how`) inside / outside the ambient block; returns (result, the scope it
+    must run under, the value its parameter must have)"""
+    inside = how != 3
+    w = (ambient if inside else []) if rsc is None else rsc
+    if how == 1:
+      a, k, val = [cp], {}, cp
+    elif how == 2:
+      a, k, val = [], {kwname: cp}, cp
+    else:
+      a, k, val = [], {}, bound_val(w, v0, v1, v2, va)
+    res = _in_scope(KAMB[amb] if inside else '', lambda: fn(*a, **k))
+    return res, w, val
+
+  for c in range(ncalls):
+    del world.LOG[:]
+    del world.SRC_CALLS[:]
+    _in_scope(KAMB[amb], world.cons)
+    if not world.LOG or world.LOG[-1][0] != 'cons' or world.LOG[-1][3] != ambient:
+      return rt.no('consumer record')
+    p = world.LOG[-1][1][0]
+    d = p if tp == 0 else p['k'][0]
+    made = world.LOG[:-1]
+    if evaluate:
+      w = ambient if rsc is None else rsc
+      val = bound_val(w, v0, v1, v2, va)
+      if tgt == 3:
+        if made or len(world.SRC_CALLS) != 1 or world.SRC_CALLS[0][1] != w or \
+            not rt.same('srcv', world.SRC_CALLS[0][0], val) or not rt.same('res', d[0], val):
+          return rt.no('evaluated function reference')
+      elif tgt == 2:
+        if made or not isinstance(d, klass):
+          return rt.no('evaluated Kmeth reference')
+      else:
+        if len(made) != 1 or made[0][0] != lname or made[0][3] != w or not rt.same('a', made[0][1][0], val):
+          return rt.no('class constructed under the wrong scope / value / count')
+        if not isinstance(d, klass) or not rt.same('got', d.got[0], val):
+          return rt.no('delivered instance')
+      if any(d is f for f in firsts):
+        return rt.no('instance of an earlier call delivered again')
+      firsts.append(d)
+      if tgt == 2:
+        # methods of the instance made by a scoped reference run under that scope (unscoped: plain class)
+        del world.LOG[:]
+        res, w2, val2 = use(d.meth, 'a')
+        if len(world.LOG) != 1 or world.LOG[0][0] != lname or world.LOG[0][3] != w2 or \
+            not rt.same('ma', world.LOG[0][1][0], val2) or not rt.same('mres', res[0], val2):
+          return rt.no('method of the delivered instance')
+    else:
+      if made or world.SRC_CALLS:
+        return rt.no('unevaluated reference was called')
+      if not callable(d):
+        return rt.no('not callable')
+      del world.LOG[:]
+      if tgt == 2:
+        # construct (no parameters) where `how` says, then use the method the same way
+        inst = _in_scope(KAMB[amb] if how != 3 else '', d)
+        if world.LOG or not isinstance(inst, klass):
+          return rt.no('constructing through the delivered class')
+        mres, w2, val2 = use(inst.meth, 'a')
+        if len(world.LOG) != 1 or world.LOG[0][0] != lname or world.LOG[0][3] != w2 or \
+            not rt.same('ma', world.LOG[0][1][0], val2) or not rt.same('mres', mres[0], val2):
+          return rt.no('method of an instance made through the delivered class')
+        continue
+      res, w, val = use(d, 'v' if tgt == 3 else 'a')
+      if tgt == 3:
+        if len(world.SRC_CALLS) != 1 or world.SRC_CALLS[0][1] != w or \
+            not rt.same('srcv', world.SRC_CALLS[0][0], val) or not rt.same('res', res[0], val):
+          return rt.no('calling the delivered function')
+      else:
+        if len(world.LOG) != 1 or world.LOG[0][0] != lname or world.LOG[0][3] != w or \
+            not rt.same('a', world.LOG[0][1][0], val):
+          return rt.no('constructing through the delivered class: scope / value')
+        if not isinstance(res, klass) or not rt.same('got', res.got[0], val):
+          return rt.no('instance made through the delivered class')
+  with rt.native():
+    if gin.config_str() != cfg_before:
+      return rt.no('config string changed')
+  return True
+
+
+# ---------------------------------------------------------------------------------------------------
+# items 5, 6, 7: other consumer signatures, caller passes gin.REQUIRED, binding shadowed in the ambient scope
+# ---------------------------------------------------------------------------------------------------
+# (configurable, focus parameter, other parameter)
+CK = [('vw.cons', 'p', 'q'), ('vw.kws', 'z', 'a'), ('vw.varkwo', 'b', 'a'), ('vw.varkwo', 'a', 'b'),
+      ('vw.Kinit', 'a', 'b'), ('vw.Kinit', 'b', 'a')]
+SAMB = ['', 'amb', 'amb/zz']
+SPLACE = ['{R}', '[{R}, 1]']
+
+
+def _sig_call(ck, mode, cp, cq):
+  """the call for (consumer kind, mode) or None when the combination does not exist
+  modes: 0 omitted, 1 positional, 2 keyword, 3 REQUIRED positional, 4 REQUIRED keyword,
+         5 omitted while the caller supplies the OTHER parameter (and surplus positionals where possible)"""
+  R = gin.REQUIRED
+  focus = CK[ck][1]
+  if mode == 0:
+    return [], {}
+  if mode in (2, 4):
+    return [], {focus: cp if mode == 2 else R}
+  x = cp if mode == 1 else R
+  if ck == 0:
+    return ([x], {}) if mode != 5 else ([], {'q': cq})
+  if ck == 1:
+    return None if mode != 5 else ([cq], {})
+  if ck == 2:
+    return None if mode != 5 else ([cq, 8, 9], {})
+  if ck == 3:
+    return ([x] if mode == 3 else [x, 8, 9], {}) if mode != 5 else ([], {'b': cq})
+  if ck == 4:
+    return ([x], {}) if mode != 5 else ([], {'b': cq})
+  return ([7, x], {}) if mode != 5 else ([cq], {})
+
+
+def _sig_received(ck, entry):
+  """(focus value, other value) from the consumer's record"""
+  _, args, kwargs, _ = entry
+  if ck == 0:
+    return args[0], args[1]
+  if ck == 1:
+    return kwargs.get('z'), args[0]
+  if ck == 2:
+    return kwargs['b'], args[0]
+  if ck == 3:
+    return args[0], kwargs['b']
+  if ck == 4:
+    return args[0], args[1]
+  return args[1], args[0]
+
+
+def c04_sigs(ck: int, mode: int, shadow: int, evaluate: bool, rscope: int, amb: int, pl: int,
+             ncalls: int, mut: bool, v0: int, v1: int, v2: int, va: int, w0: int, w1: int,
+             cp: int, cq: int) -> bool:
+  """
+  pre: 0 <= ck < 6 and 0 <= mode < 6 and 0 <= shadow < 3 and 0 <= rscope < 2 and 0 <= amb < 3 and 0 <= pl < 2 and 1 <= ncalls <= 3
+  """
+  world.fresh()
+  ck = rt.pick(ck, 6)
+  mode = rt.pick(mode, 6)
+  shadow = rt.pick(shadow, 3)
+  evaluate = rt.flag(evaluate)
+  rscope = rt.pick(rscope, 2)
+  amb = rt.pick(amb, 3)
+  pl = rt.pick(pl, 2)
+  ncalls = rt.pick(ncalls, 4)
+  mut = rt.flag(mut)
+  call = _sig_call(ck, mode, cp, cq)
+  if call is None:
+    rt.discard()
+  rt.sig(('sigs', ck, mode, shadow, evaluate, rscope, amb, pl, ncalls, mut), nontrivial=mode not in (1, 2))
+  _consts(V0=v0, V1=v1, V2=v2, VA=va, W0=w0, W1=w1)
+  sel, focus, other = CK[ck]
+  with rt.native():
+    ref = '@' + (RSCOPE[rscope] + '/' if RSCOPE[rscope] else '') + 'vw.src' + ('()' if evaluate else '')
+    lines = _bind4('vw.src.v') + ['vw.src2.v = %vwc.W0',
+                                  '%s.%s = %s' % (sel, focus, SPLACE[pl].format(R=ref)),
+                                  '%s.%s = @vw.src2()' % (sel, other)]
+    if shadow == 1:
+      lines.append('amb/%s.%s = %%vwc.W1' % (sel, focus))
+    elif shadow == 2:
+      lines.append('amb/%s.%s = [@vw.src2()]' % (sel, focus))
+    gin.parse_config('\n'.join(lines + ['']))
+    cfg_before = gin.config_str()
+    stored_before = repr(gin.query_parameter('%s.%s' % (sel, focus)))
+  ambient = SAMB[amb].split('/') if amb else []
+  rsc = RSCOPE[rscope].split('/') if rscope else None
+  src_scope = ambient if rsc is None else rsc
+  src_val = bound_val(src_scope, v0, v1, v2, va)
+  shadowed = shadow if ambient[:1] == ['amb'] else 0
+  focus_from_gin = mode in (0, 3, 4, 5)
+  # Kinit(7, x): to pass b positionally the caller has to pass a (the other parameter) as well
+  other_caller = cq if mode == 5 else (7 if ck == 5 and mode in (1, 3) else None)
+  other_from_gin = other_caller is None
+  consumer = [world.cons, world.kws, world.varkwo, world.varkwo, world.Kinit, world.Kinit][ck]
+  lname = sel[3:]
+  firsts = []
+  for c in range(ncalls):
+    del world.LOG[:]
+    del world.SRC_CALLS[:]
+    a, k = _sig_call(ck, mode, cp, cq)
+    _in_scope(SAMB[amb], lambda: consumer(*a, **k))
+    if len(world.LOG) != 1 or world.LOG[0][0] != lname or world.LOG[0][3] != ambient:
+      return rt.no('consumer record')
+    fv, ov = _sig_received(ck, world.LOG[0])
+    calls_src = [r for r in world.SRC_CALLS if r[0] != 'src2']
+    calls_src2 = [r for r in world.SRC_CALLS if r[0] == 'src2']
+    want2 = (1 if other_from_gin else 0) + (1 if focus_from_gin and shadowed == 2 else 0)
+    if len(calls_src2) != want2:
+      return rt.no('src2 called %d times, expected %d' % (len(calls_src2), want2))
+    for r in calls_src2:
+      if r[2] != ambient or not rt.same('w0', r[1], w0):
+        return rt.no('src2 scope / value')
+    # --- the other parameter ----------------------------------------------------------------------
+    if other_from_gin:
+      if not (isinstance(ov, dict) and rt.same('ov', ov['v'], w0)):
+        return rt.no('other parameter (Gin-supplied)')
+      if mut:
+        with rt.native():
+          ov['junk'] = 1
+    elif not rt.same('ov', ov, other_caller):
+      return rt.no('other parameter (caller-supplied)')
+    if (mode == 5 and ck == 2) or (mode == 1 and ck == 3):
+      if world.LOG[0][1][1:] != (8, 9):
+        return rt.no('surplus positionals')
+    # --- the focus parameter ------------------------------------------------------------------------
+    if not focus_from_gin:
+      if calls_src or not rt.same('fv', fv, cp):
+        return rt.no('caller-supplied parameter: reference evaluated or value replaced')
+      continue
+    if shadowed == 1:
+      if calls_src or not rt.same('fv', fv, w1):
+        return rt.no('shadowed reference evaluated / shadowing value not delivered')
+      continue
+    if shadowed == 2:
+      if calls_src or not (isinstance(fv, list) and len(fv) == 1 and isinstance(fv[0], dict) and
+                           rt.same('fv', fv[0]['v'], w0)):
+        return rt.no('shadowed reference evaluated / shadowing reference not delivered')
+      if mut:
+        with rt.native():
+          fv.append('junk')
+          fv[0]['junk'] = 1
+      continue
+    if pl == 1:
+      if not (isinstance(fv, list) and len(fv) == 2 and fv[1] == 1):
+        return rt.no('shape')
+      g = fv[0]
+    else:
+      g = fv
+    if evaluate:
+      if len(calls_src) != 1 or calls_src[0][1] != src_scope or not rt.same('srcv', calls_src[0][0], src_val):
+        return rt.no('source call count / scope / value')
+      if not (isinstance(g, list) and len(g) == 1 and rt.same('res', g[0], src_val)):
+        return rt.no('delivered result')
+      if any(g is f for f in firsts):
+        return rt.no('result of an earlier call delivered again')
+      firsts.append(g)
+    else:
+      if calls_src or not callable(g):
+        return rt.no('unevaluated reference called / not callable')
+      del world.SRC_CALLS[:]
+      res = _in_scope(SAMB[amb], g)
+      if len(world.SRC_CALLS) != 1 or world.SRC_CALLS[0][1] != src_scope or not rt.same('res', res[0], src_val):
+        return rt.no('calling the delivered configurable')
+    if mut:
+      with rt.native():
+        if isinstance(g, list):
+          g.append('junk')
+        if pl == 1:
+          fv.append('junk')
+          fv[0] = 'junk'
+  with rt.native():
+    if gin.config_str() != cfg_before:
+      return rt.no('config string changed')
+    if repr(gin.query_parameter('%s.%s' % (sel, focus))) != stored_before:
+      return rt.no('stored value changed')
+  return True
+
+
+# ---------------------------------------------------------------------------------------------------
+# items 4, 9, 10: chained references, other ways to build the ambient scope, repeated / dotted scopes
+# ---------------------------------------------------------------------------------------------------
+LSCOPE = ['', 'r1', 'amb/zz']
+RS2 = ['x', 'r1/r1', 'r1/r2', 'r1/zz', 'zz/r1', 'a.b', 'a.b/r1', 'amb']
+AB_EXPECT = [[], ['amb'], ['x', 'r1'], [], [], ['x', 'r1'], ['amb'], ['amb'], ['amb'], ['amb', 'r1']]
+
+
+def _ambient_call(ab):
+  """calls the consumer vw.cons under an ambient scope built in one of ten ways"""
+  if ab == 0:
+    world.cons()
+  elif ab == 1:
+    with gin.config_scope('amb'):
+      world.cons()
+  elif ab == 2:
+    with gin.config_scope('x'):
+      with gin.config_scope('r1'):
+        world.cons()
+  elif ab == 3:
+    with gin.config_scope('amb'):
+      with gin.config_scope(None):
+        world.cons()
+  elif ab == 4:
+    with gin.config_scope('amb'):
+      with gin.config_scope(''):
+        world.cons()
+  elif ab == 5:
+    with gin.config_scope(['x', 'r1']):
+      world.cons()
+  elif ab == 6:
+    with gin.config_scope('amb') as captured:
+      pass
+    with gin.config_scope('zz'):
+      with gin.config_scope(captured):
+        world.cons()
+  elif ab == 7:
+    with gin.config_scope('zz'):
+      gin.get_configurable('amb/vw.cons')()
+  elif ab == 8:
+    with gin.config_scope('amb'):
+      c = gin.get_configurable(world.cons)
+    c()
+  else:
+    with gin.config_scope('amb'):
+      gin.get_configurable('vw.cons')
+      with gin.config_scope('r1'):
+        gin.get_configurable('vw.cons')()
+
+
+def c04_chain(ab: int, evaluate: bool, lscope: int, rs: int, ncalls: int, mut: bool,
+              v0: int, v1: int, v2: int, va: int, vb: int) -> bool:
+  """
+  pre: 0 <= ab < 10 and 0 <= lscope < 3 and 0 <= rs < 8 and 1 <= ncalls <= 3
+  """
+  world.fresh()
+  ab = rt.pick(ab, 10)
+  evaluate = rt.flag(evaluate)
+  lscope = rt.pick(lscope, 3)
+  rs = rt.pick(rs, 8)
+  ncalls = rt.pick(ncalls, 4)
+  mut = rt.flag(mut)
+  rt.sig(('chain', ab, evaluate, lscope, rs, ncalls, mut))
+  _consts(V0=v0, V1=v1, V2=v2, VA=va, VB=vb)
+  with rt.native():
+    outer = '@' + (LSCOPE[lscope] + '/' if LSCOPE[lscope] else '') + 'vw.lit' + ('()' if evaluate else '')
+    gin.parse_config('\n'.join(_bind4('vw.src.v') + ['vw.lit.p = @vw.src()', 'vw.cons.p = [%s]' % outer, '']))
+    # a scope with a dotted component cannot be written as the scope of a binding: programmatic API
+    gin.bind_parameter('a.b/vw.src.v', gin.config.parse_value('%vwc.VB'))
+    gin.bind_parameter('vw.lit.q', gin.config.parse_value('{"k": @%s/vw.src()}' % RS2[rs]))
+    cfg_before = gin.config_str()
+  ambient = AB_EXPECT[ab]
+  lsc = LSCOPE[lscope].split('/') if lscope else None
+  isc = RS2[rs].split('/')
+  firsts = []
+  for c in range(ncalls):
+    del world.LOG[:]
+    del world.SRC_CALLS[:]
+    _ambient_call(ab)
+    if gin.current_scope() != []:
+      return rt.no('scope not restored')
+    if not world.LOG or world.LOG[-1][0] != 'cons' or world.LOG[-1][3] != ambient:
+      return rt.no('consumer record / scope')
+    p = world.LOG[-1][1][0]
+    if not (isinstance(p, list) and len(p) == 1):
+      return rt.no('shape')
+    if evaluate:
+      lit_scope = ambient if lsc is None else lsc
+      res = p[0]
+      lits = world.LOG[:-1]
+    else:
+      if len(world.LOG) != 1 or world.SRC_CALLS or not callable(p[0]):
+        return rt.no('unevaluated outer reference')
+      del world.LOG[:]
+      res = p[0]()                          # called later, outside every scope
+      lit_scope = [] if lsc is None else lsc
+      lits = world.LOG[:]
+    if len(lits) != 1 or lits[0][0] != 'lit' or lits[0][3] != lit_scope:
+      return rt.no('outer reference ran under the wrong scope')
+    # inner references: the unscoped one sees the scope of the enclosing reference
+    want = [(bound_val(lit_scope, v0, v1, v2, va, vb), lit_scope), (bound_val(isc, v0, v1, v2, va, vb), isc)]
+    if len(world.SRC_CALLS) != 2:
+      return rt.no('inner references: %d calls' % len(world.SRC_CALLS))
+    for w in want:
+      if not any(r[1] == w[1] and rt.same('inner', r[0], w[0]) for r in world.SRC_CALLS):
+        return rt.no('inner reference scope / value')
+    lp, lq = res
+    if not (isinstance(lp, list) and rt.same('lp', lp[0], want[0][0]) and isinstance(lq, dict) and
+            rt.same('lq', lq['k'][0], want[1][0])):
+      return rt.no('values delivered through the chain')
+    if any(lp is f or lq['k'] is f for f in firsts):
+      return rt.no('result of an earlier call delivered again')
+    firsts.extend([lp, lq['k']])
+    if mut:
+      with rt.native():
+        lp.append('junk')
+        lq['k'].append('junk')
+        lq['junk'] = 1
+        p.append('junk')
+  with rt.native():
+    if gin.config_str() != cfg_before:
+      return rt.no('config string changed')
+  return True
+
+
+# ---------------------------------------------------------------------------------------------------
+# item 8: an evaluation raises in the middle of a history
+# ---------------------------------------------------------------------------------------------------
+class _Odd(Exception):
+  pass
+
+
+def c04_raise(amb: int, bpos: int, bscope: bool, exc: int, when: int, mut: bool,
+              v0: int, v1: int, v2: int, va: int) -> bool:
+  """
+  pre: 0 <= amb < 4 and 0 <= bpos < 4 and 0 <= exc < 3 and 0 <= when < 3
+  """
+  world.fresh()
+  amb = rt.pick(amb, 4)
+  bpos = rt.pick(bpos, 4)
+  bscope = rt.flag(bscope)
+  exc = rt.pick(exc, 3)
+  when = rt.pick(when, 3)
+  mut = rt.flag(mut)
+  inner = bpos == 3
+  if inner and bscope:
+    rt.discard()
+  rt.sig(('raise', amb, bpos, bscope, exc, when, mut))
+  _consts(V0=v0, V1=v1, V2=v2, VA=va)
+  world.RAISE[0] = [ValueError('vw04'), KeyError('vw04'), _Odd('vw04')][exc]
+  with rt.native():
+    boom = '@r1/vw.boom()' if bscope else '@vw.boom()'
+    if inner:       # the failure happens one level down, inside a reference that is itself scoped
+      bad = ['vw.lit.p = [@q9/vw.outer1()]']
+    else:
+      bad = ['vw.lit.p = ' + ['[%s, @vw.src()]', '[@vw.src(), %s]', "{'k': (@r1/vw.src(), [%s])}"][bpos] % boom]
+    gin.parse_config('\n'.join(_bind4('vw.src.v') + bad + ['vw.cons.p = [@vw.src(), @r1/r2/vw.src()]', '']))
+    cfg_before = gin.config_str()
+  ambient = KAMB[amb].split('/') if amb else []
+
+  def good(at):
+    del world.LOG[:]
+    del world.SRC_CALLS[:]
+    world.cons()
+    if len(world.LOG) != 1 or world.LOG[0][3] != at:
+      return rt.no('consumer scope after a failed evaluation')
+    p = world.LOG[0][1][0]
+    w0_, w1_ = bound_val(at, v0, v1, v2, va), v2
+    if len(world.SRC_CALLS) != 2 or world.SRC_CALLS[0][1] != at or world.SRC_CALLS[1][1] != ['r1', 'r2']:
+      return rt.no('reference scopes after a failed evaluation')
+    if not (isinstance(p, list) and len(p) == 2 and rt.same('p0', p[0][0], w0_) and rt.same('p1', p[1][0], w1_)):
+      return rt.no('values after a failed evaluation')
+    if mut:
+      with rt.native():
+        p[0].append('junk')
+        p.append('junk')
+    return True
+
+  def bad_call():
+    try:
+      world.lit()
+    except Exception:          # which exception arrives is the subject of C17
+      return True
+    return rt.no('failing evaluation did not raise')
+
+  def block():
+    for step in range(3):
+      if step == when:
+        if not bad_call():
+          return False
+      if not good(ambient):
+        return False
+    return True
+
+  if not _in_scope(KAMB[amb], block):
+    return False
+  if gin.current_scope() != []:
+    return rt.no('scope stack not restored')
+  if not good([]):
+    return False
+  with rt.native():
+    if gin.config_str() != cfg_before:
+      return rt.no('config string changed')
+  return True
+
+
+# ---------------------------------------------------------------------------------------------------
+# items 1, 12: containers and references supplied through bind_parameter; queries that evaluate;
+#              a macro bound to a mutable list
+# ---------------------------------------------------------------------------------------------------
+def _api_value(ap, r, r2):
+  """(value to bind, number of reference OCCURRENCES, number of distinct reference objects)"""
+  if ap == 0:
+    return [r, r], 2, 1
+  if ap == 1:
+    sub = [r]
+    return (sub, sub, {'k': sub}), 3, 1
+  if ap == 2:
+    return NT(r, [r2]), 2, 2
+  if ap == 3:
+    return _collections.OrderedDict([('z', r), ('a', [r2])]), 2, 2
+  return {'k': [r, r2, r]}, 3, 2
+
+
+def _api_delivered(ap, p):
+  if ap == 0:
+    return [p[0], p[1]]
+  if ap == 1:
+    return [p[0][0], p[1][0], p[2]['k'][0]]
+  if ap == 2:
+    return [p.a, p.b[0]]
+  if ap == 3:
+    return [p['z'], p['a'][0]]
+  return list(p['k'])
+
+
+def _api_shape_ok(ap, p):
+  with rt.native():
+    if ap == 0:
+      return isinstance(p, list) and len(p) == 2
+    if ap == 1:
+      return (isinstance(p, tuple) and len(p) == 3 and isinstance(p[0], list) and len(p[0]) == 1 and
+              isinstance(p[1], list) and len(p[1]) == 1 and isinstance(p[2], dict) and list(p[2]) == ['k'] and
+              isinstance(p[2]['k'], list) and len(p[2]['k']) == 1)
+    if ap == 2:
+      return isinstance(p, NT) and isinstance(p.b, list) and len(p.b) == 1
+    if ap == 3:
+      return (isinstance(p, _collections.OrderedDict) and list(p) == ['z', 'a'] and
+              isinstance(p['a'], list) and len(p['a']) == 1)
+    return isinstance(p, dict) and list(p) == ['k'] and isinstance(p['k'], list) and len(p['k']) == 3
+
+
+def _api_mutate(ap, p):
+  with rt.native():
+    for d in _api_delivered(ap, p):
+      if isinstance(d, list):
+        d.append('junk')
+    if ap == 0:
+      p.append('junk')
+      p[0] = 'junk'
+    elif ap == 1:
+      p[0].append('junk')
+      p[2]['k'].append('junk')
+      p[2]['z'] = 'junk'
+    elif ap == 2:
+      p.b.append('junk')
+    elif ap == 3:
+      p['a'].append('junk')
+      p['new'] = 'junk'
+      p.move_to_end('z')
+    else:
+      p['k'].append('junk')
+      p['z'] = 'junk'
+
+
+def c04_api(ap: int, via: int, evaluate: bool, rscope: int, amb: int, qs: int, mut: bool, ncalls: int,
+            v0: int, v1: int, v2: int, va: int) -> bool:
+  """
+  pre: 0 <= ap < 5 and 0 <= via < 2 and 0 <= rscope < 3 and 0 <= amb < 4 and 0 <= qs < 6 and 1 <= ncalls <= 3
+  """
+  world.fresh()
+  ap = rt.pick(ap, 5)
+  via = rt.pick(via, 2)
+  evaluate = rt.flag(evaluate)
+  rscope = rt.pick(rscope, 3)
+  amb = rt.pick(amb, 4)
+  qs = rt.pick(qs, 6)
+  mut = rt.flag(mut)
+  ncalls = rt.pick(ncalls, 4)
+  rt.sig(('api', ap, via, evaluate, rscope, amb, qs, mut, ncalls))
+  _consts(V0=v0, V1=v1, V2=v2, VA=va)
+  with rt.native():
+    ref = '@' + (RSCOPE[rscope] + '/' if RSCOPE[rscope] else '') + 'vw.src' + ('()' if evaluate else '')
+    gin.parse_config('\n'.join(_bind4('vw.src.v') + ['m = [1, [2], {"k": [3]}]', 'vw.cons.q = %m',
+                                                     'vw.lit.p = ' + ref, 'vw.lit.q = ' + ref, '']))
+    if via == 0:      # reference objects taken out of the store
+      r, r2 = gin.query_parameter('vw.lit.p'), gin.query_parameter('vw.lit.q')
+    else:             # reference objects made by the value parser
+      r, r2 = gin.config.parse_value(ref), gin.config.parse_value(ref)
+    value, nocc, nobj = _api_value(ap, r, r2)
+    gin.bind_parameter('vw.cons.p', value)
+    cfg_before = gin.config_str()
+    stored_before = repr(gin.query_parameter('vw.cons.p'))
+    macro_before = repr(gin.query_parameter('%m'))
+  ambient = KAMB[amb].split('/') if amb else []
+  rsc = RSCOPE[rscope].split('/') if rscope else None
+  src_scope = ambient if rsc is None else rsc
+  src_val = bound_val(src_scope, v0, v1, v2, va)
+  firsts = []
+  for c in range(ncalls):
+    if c == 1 and qs:
+      # a query that evaluates (or hands out the stored bindings) between two consumer calls; what it
+      # returns is not judged (the statement speaks about consumers), only what later calls see
+      if qs == 1:
+        gin.get_bindings('vw.cons')
+      elif qs == 2:
+        gin.get_bindings('amb/vw.cons')
+      elif qs == 3:
+        _in_scope(KAMB[amb], lambda: gin.get_bindings(world.cons))
+      elif qs == 4:
+        gin.get_bindings('vw.cons', resolve_references=False)
+      else:
+        _in_scope(KAMB[amb], lambda: gin.get_bindings('vw.cons', inherit_scopes=False))
+    del world.LOG[:]
+    del world.SRC_CALLS[:]
+    _in_scope(KAMB[amb], world.cons)
+    if len(world.LOG) != 1 or world.LOG[0][3] != ambient:
+      return rt.no('consumer record')
+    p, q = world.LOG[0][1]
+    # --- q: the macro-bound mutable list ------------------------------------------------------------
+    with rt.native():
+      if q != [1, [2], {'k': [3]}]:
+        return rt.no('macro-bound list seen by the consumer changed')
+    if any(q is f for f in firsts):
+      return rt.no('the same list object delivered twice')
+    firsts.append(q)
+    # --- p -------------------------------------------------------------------------------------------
+    if not _api_shape_ok(ap, p):
+      return rt.no('shape')
+    got = _api_delivered(ap, p)
+    if evaluate:
+      # one reference OBJECT placed several times: the statement fixes "anew for every consumer call",
+      # not whether the occurrences share one evaluation -> between nobj and nocc calls are accepted
+      if not (nobj <= len(world.SRC_CALLS) <= nocc):
+        return rt.no('source called %d times' % len(world.SRC_CALLS))
+      for r_ in world.SRC_CALLS:
+        if r_[1] != src_scope or not rt.same('srcv', r_[0], src_val):
+          return rt.no('source scope / value')
+      for g in got:
+        if not (isinstance(g, list) and len(g) == 1 and rt.same('res', g[0], src_val)):
+          return rt.no('delivered result')
+        if any(g is f for f in firsts):
+          return rt.no('result of an earlier call delivered again')
+      ndistinct = 0
+      seen_objs = []
+      for g in got:
+        if not any(g is s_ for s_ in seen_objs):
+          seen_objs.append(g)
+          ndistinct += 1
+      if ndistinct != len(world.SRC_CALLS):
+        return rt.no('distinct results != number of evaluations')
+      firsts.extend(seen_objs)
+    else:
+      if world.SRC_CALLS:
+        return rt.no('unevaluated reference was called')
+      for g in got:
+        if not callable(g):
+          return rt.no('not callable')
+        del world.SRC_CALLS[:]
+        res = _in_scope(KAMB[amb], g)
+        if len(world.SRC_CALLS) != 1 or world.SRC_CALLS[0][1] != src_scope or not rt.same('res', res[0], src_val):
+          return rt.no('calling the delivered configurable')
+    if mut:
+      with rt.native():
+        q[1].append('junk')
+        q[2]['k'].append('junk')
+        q.append('junk')
+      _api_mutate(ap, p)
+  with rt.native():
+    if gin.config_str() != cfg_before:
+      return rt.no('config string changed')
+    if repr(gin.query_parameter('vw.cons.p')) != stored_before:
+      return rt.no('stored value changed')
+    if repr(gin.query_parameter('%m')) != macro_before:
+      return rt.no('macro value changed')
+  return True
+
+
 HARNESSES = {
     'c04_refs': dict(
         fn='c04_refs',
@@ -215,4 +1099,138 @@ HARNESSES = {
                'tuple) + 3 reference-free values with mutable containers inside a tuple / dict / list, evaluated or not, reference scope none/r1/r1/r2, ambient scope none / amb / x/r1 / xr1 / r1 / q/r1/r2 (the last four END with a reference scope), parameter p '
                'omitted/positional/keyword, parameter q omitted/keyword, 1-3 calls with or without the '
                'consumer mutating what it got; source values: all ints (through constants)'),
+    'c04_keys': dict(
+        fn='c04_keys',
+        anchors=['gin.config:__deepcopy__', 'gin.config:__hash__', 'gin.config:scoping_wrapper',
+                 'gin.config_parser:_parse_dict_item'],
+        smoke=[dict(kp=0, evaluate=True, rscope=1, amb=1, mp=0, ncalls=2, mut=True, v0=1, v1=2, v2=3, va=4, cp=6),
+               dict(kp=1, evaluate=False, rscope=0, amb=2, mp=3, ncalls=1, mut=False, v0=1, v1=2, v2=3, va=4, cp=6),
+               dict(kp=2, evaluate=True, rscope=2, amb=0, mp=2, ncalls=2, mut=True, v0=1, v1=2, v2=3, va=4, cp=6),
+               dict(kp=3, evaluate=True, rscope=0, amb=3, mp=0, ncalls=2, mut=True, v0=1, v1=2, v2=3, va=4, cp=6),
+               dict(kp=4, evaluate=True, rscope=0, amb=1, mp=0, ncalls=2, mut=True, v0=1, v1=2, v2=3, va=4, cp=6),
+               dict(kp=4, evaluate=False, rscope=1, amb=1, mp=1, ncalls=2, mut=False, v0=1, v1=2, v2=3, va=4, cp=6)],
+        tiers={'quick': dict(split=dict(kp=list(range(5)), evaluate=[False, True]), fixed=dict(ncalls=2), budget_s=200),
+               'thorough': dict(split=dict(kp=list(range(5)), mp=[0, 1, 2, 3], ncalls=[1, 2, 3]), budget_s=300)},
+        bounds='a reference in dict KEY position: 5 shapes ({R: 1}; the same nested in list/dict/tuple; inside a '
+               'tuple key; two keys that differ only in their scope, R and @z/..; a macro key %m with m = R), '
+               'hashable source results, evaluated or not, reference scope none/r1/r1/r2, ambient none / amb / '
+               'x/r1 / r1, parameter omitted / positional / gin.REQUIRED positional / gin.REQUIRED by keyword, '
+               '1-3 calls with or without the consumer mutating the dict and the key objects'),
+    'c04_targets': dict(
+        fn='c04_targets',
+        anchors=['gin.config:_decorate_with_scope', 'gin.config:_decorate_fn_or_cls', 'gin.config:scoping_wrapper',
+                 'gin.config:meta_call_wrapper', 'gin.config:__deepcopy__'],
+        smoke=[dict(tgt=0, evaluate=True, rscope=1, amb=1, how=0, tp=0, ncalls=2, v0=1, v1=2, v2=3, va=4, cp=6),
+               dict(tgt=1, evaluate=True, rscope=2, amb=2, how=0, tp=1, ncalls=2, v0=1, v1=2, v2=3, va=4, cp=6),
+               dict(tgt=1, evaluate=False, rscope=1, amb=1, how=1, tp=0, ncalls=1, v0=1, v1=2, v2=3, va=4, cp=6),
+               dict(tgt=2, evaluate=True, rscope=1, amb=1, how=3, tp=0, ncalls=2, v0=1, v1=2, v2=3, va=4, cp=6),
+               dict(tgt=2, evaluate=False, rscope=0, amb=1, how=2, tp=1, ncalls=2, v0=1, v1=2, v2=3, va=4, cp=6),
+               dict(tgt=3, evaluate=False, rscope=1, amb=1, how=3, tp=0, ncalls=2, v0=1, v1=2, v2=3, va=4, cp=6),
+               dict(tgt=0, evaluate=False, rscope=0, amb=3, how=2, tp=0, ncalls=2, v0=1, v1=2, v2=3, va=4, cp=6)],
+        tiers={'quick': dict(split=dict(tgt=[0, 1, 2, 3], rscope=[0, 1, 2]), fixed=dict(ncalls=2), budget_s=200),
+               'thorough': dict(split=dict(tgt=[0, 1, 2, 3], how=[0, 1, 2, 3], ncalls=[1, 2, 3]), budget_s=300)},
+        bounds='reference target: @gin.configurable class (vw.Kinit), @gin.register class (vw.Kreg), registered '
+               'class with a registered method (vw.Kmeth, then .meth()), function (vw.src); evaluated or not; '
+               'reference scope none/r1/r1/r2; ambient none / amb / x/r1 / r1; top level or inside a tuple in a '
+               'dict; the delivered callable / method is used inside the ambient block without arguments, with a '
+               'positional argument, with a keyword argument, or later outside the block; 1-3 consumer calls'),
+    'c04_sigs': dict(
+        fn='c04_sigs',
+        anchors=['gin.config:gin_wrapper', 'gin.config:_get_bindings',
+                 'gin.config:_get_supplied_positional_parameter_names', 'gin.config:__deepcopy__'],
+        smoke=[dict(ck=0, mode=3, shadow=0, evaluate=True, rscope=1, amb=1, pl=1, ncalls=2, mut=True,
+                    v0=1, v1=2, v2=3, va=4, w0=5, w1=8, cp=6, cq=7),
+               dict(ck=1, mode=4, shadow=1, evaluate=True, rscope=0, amb=1, pl=0, ncalls=2, mut=True,
+                    v0=1, v1=2, v2=3, va=4, w0=5, w1=8, cp=6, cq=7),
+               dict(ck=2, mode=5, shadow=2, evaluate=True, rscope=0, amb=2, pl=0, ncalls=2, mut=True,
+                    v0=1, v1=2, v2=3, va=4, w0=5, w1=8, cp=6, cq=7),
+               dict(ck=3, mode=1, shadow=0, evaluate=True, rscope=0, amb=0, pl=1, ncalls=2, mut=False,
+                    v0=1, v1=2, v2=3, va=4, w0=5, w1=8, cp=6, cq=7),
+               dict(ck=4, mode=3, shadow=1, evaluate=False, rscope=1, amb=0, pl=0, ncalls=2, mut=False,
+                    v0=1, v1=2, v2=3, va=4, w0=5, w1=8, cp=6, cq=7),
+               dict(ck=5, mode=0, shadow=2, evaluate=True, rscope=1, amb=1, pl=1, ncalls=2, mut=True,
+                    v0=1, v1=2, v2=3, va=4, w0=5, w1=8, cp=6, cq=7),
+               dict(ck=5, mode=2, shadow=0, evaluate=True, rscope=0, amb=1, pl=0, ncalls=1, mut=False,
+                    v0=1, v1=2, v2=3, va=4, w0=5, w1=8, cp=6, cq=7)],
+        tiers={'quick': dict(split=dict(ck=list(range(6)), shadow=[0, 1, 2]), fixed=dict(ncalls=2, mut=True, rscope=0),
+                             budget_s=200),
+               'thorough': dict(split=dict(ck=list(range(6)), mode=list(range(6)), ncalls=[1, 2, 3]), budget_s=300)},
+        bounds='consumer / focus parameter: cons.p, kws.z (lands in **kw), varkwo.b (keyword-only behind *rest), '
+               'varkwo.a (positional before *rest, with surplus positionals), Kinit.a and Kinit.b (class '
+               'construction); the caller omits the parameter, passes it positionally, by keyword, passes '
+               'gin.REQUIRED positionally or by keyword, or omits it while supplying the OTHER parameter (also '
+               'bound to an evaluated reference); the root binding (reference at top level or in a list) is '
+               'not shadowed / shadowed under amb/ by a plain value / by another evaluated reference; ambient '
+               'none / amb / amb/zz; reference scope none / r1; evaluated or not; 1-3 calls, mutating or not'),
+    'c04_chain': dict(
+        fn='c04_chain',
+        anchors=['gin.config:config_scope', 'gin.config:get_configurable', 'gin.config:_decorate_with_scope',
+                 'gin.config:scoping_wrapper', 'gin.config:__deepcopy__'],
+        smoke=[dict(ab=1, evaluate=True, lscope=1, rs=0, ncalls=2, mut=True, v0=1, v1=2, v2=3, va=4, vb=9),
+               dict(ab=2, evaluate=True, lscope=0, rs=1, ncalls=2, mut=True, v0=1, v1=2, v2=3, va=4, vb=9),
+               dict(ab=3, evaluate=True, lscope=0, rs=2, ncalls=2, mut=False, v0=1, v1=2, v2=3, va=4, vb=9),
+               dict(ab=4, evaluate=False, lscope=2, rs=3, ncalls=2, mut=False, v0=1, v1=2, v2=3, va=4, vb=9),
+               dict(ab=5, evaluate=True, lscope=0, rs=5, ncalls=2, mut=True, v0=1, v1=2, v2=3, va=4, vb=9),
+               dict(ab=6, evaluate=True, lscope=0, rs=6, ncalls=2, mut=True, v0=1, v1=2, v2=3, va=4, vb=9),
+               dict(ab=7, evaluate=True, lscope=0, rs=4, ncalls=2, mut=True, v0=1, v1=2, v2=3, va=4, vb=9),
+               dict(ab=8, evaluate=True, lscope=0, rs=7, ncalls=2, mut=True, v0=1, v1=2, v2=3, va=4, vb=9),
+               dict(ab=9, evaluate=True, lscope=0, rs=0, ncalls=2, mut=True, v0=1, v1=2, v2=3, va=4, vb=9)],
+        tiers={'quick': dict(split=dict(ab=list(range(10))), fixed=dict(ncalls=2, mut=True), budget_s=100),
+               'thorough': dict(split=dict(ab=list(range(10)), ncalls=[1, 2, 3]), budget_s=300)},
+        bounds='chained references: cons.p = [@L/vw.lit or @L/vw.lit()] (L none / r1 / amb/zz) whose own '
+               'bindings hold an unscoped @vw.src() and a scoped one (scope x, r1/r1, r1/r2, r1/zz, zz/r1, '
+               'a.b, a.b/r1, amb: repeated components, inherited values, a dotted component bound through '
+               'bind_parameter); the ambient scope of the consumer call is built in ten ways (none, one with, '
+               'nested withs, config_scope(None) / config_scope("") inside amb, list form, re-entered captured '
+               'scope, get_configurable("amb/vw.cons") inside zz, get_configurable(fn) taken inside amb and '
+               'called outside, get_configurable under nested withs); 1-3 calls, mutating or not'),
+    'c04_raise': dict(
+        fn='c04_raise',
+        anchors=['gin.config:config_scope', 'gin.config:scoping_wrapper', 'gin.config:__deepcopy__',
+                 'gin.config:exit_scope'],
+        smoke=[dict(amb=1, bpos=0, bscope=True, exc=0, when=0, mut=True, v0=1, v1=2, v2=3, va=4),
+               dict(amb=2, bpos=1, bscope=False, exc=1, when=1, mut=False, v0=1, v1=2, v2=3, va=4),
+               dict(amb=0, bpos=2, bscope=True, exc=2, when=2, mut=True, v0=1, v1=2, v2=3, va=4),
+               dict(amb=3, bpos=3, bscope=False, exc=0, when=1, mut=True, v0=1, v1=2, v2=3, va=4)],
+        tiers={'quick': dict(split=dict(amb=[0, 1, 2, 3]), fixed=dict(mut=True), budget_s=200),
+               'thorough': dict(split=dict(amb=[0, 1, 2, 3], when=[0, 1, 2], bpos=[0, 1, 2, 3]), budget_s=300)},
+        bounds='a history of three good consumer calls inside an ambient block (none / amb / x/r1 / r1) and one '
+               'after it, with one call whose evaluation raises (ValueError / KeyError / a user exception) before '
+               'the 1st, 2nd or 3rd good call: the failing reference is scoped or not, first / last in a list, '
+               'nested in dict-tuple-list, or one level down inside a scoped reference (@q9/vw.outer1()); every '
+               'good call must see its scopes, values and call counts as if nothing had failed'),
+    'c04_api': dict(
+        fn='c04_api',
+        anchors=['gin.config:bind_parameter', 'gin.config:get_bindings', 'gin.config:__deepcopy__',
+                 'gin.config:macro', 'gin.config:gin_wrapper'],
+        smoke=[dict(ap=0, via=0, evaluate=True, rscope=0, amb=1, qs=1, mut=True, ncalls=2, v0=1, v1=2, v2=3, va=4),
+               dict(ap=1, via=1, evaluate=True, rscope=1, amb=2, qs=2, mut=True, ncalls=2, v0=1, v1=2, v2=3, va=4),
+               dict(ap=2, via=0, evaluate=True, rscope=2, amb=0, qs=3, mut=True, ncalls=2, v0=1, v1=2, v2=3, va=4),
+               dict(ap=3, via=1, evaluate=False, rscope=0, amb=3, qs=4, mut=True, ncalls=2, v0=1, v1=2, v2=3, va=4),
+               dict(ap=4, via=0, evaluate=True, rscope=0, amb=1, qs=5, mut=True, ncalls=3, v0=1, v1=2, v2=3, va=4),
+               dict(ap=2, via=1, evaluate=False, rscope=1, amb=1, qs=0, mut=True, ncalls=2, v0=1, v1=2, v2=3, va=4)],
+        tiers={'quick': dict(split=dict(ap=list(range(5)), via=[0, 1]), fixed=dict(ncalls=2, mut=True),
+                             budget_s=200),
+               'thorough': dict(split=dict(ap=list(range(5)), qs=list(range(6)), ncalls=[1, 2, 3]), budget_s=300)},
+        bounds='values supplied through bind_parameter: [r, r] (ONE reference object twice), a sub-list aliased '
+               'three times, a namedtuple, an OrderedDict, a list r, r2, r; reference objects taken from the '
+               'store or made by parse_value; evaluated or not; reference scope none/r1/r1/r2; ambient none / '
+               'amb / x/r1 / r1; between the calls one of get_bindings(sel) / (amb/sel) / (fn) inside the '
+               'ambient scope / resolve_references=False / inherit_scopes=False (results not judged, never '
+               'mutated); second parameter bound to a macro whose value is a nested mutable list; 1-3 calls, '
+               'mutating or not'),
 }
+
+OUTSIDE = ('consumers behind a signature-agnostic decorator (vw.wrapped: a caller positional and a Gin binding for the '
+           'same name collide, known limitation); sets / frozensets of references; what gin.get_bindings() RETURNS '
+           '(the statement speaks about consumers: only what later consumer calls, query_parameter and config_str '
+           'see after such a query is judged; get_bindings(resolve_references=False) hands out the stored container '
+           'itself and is never mutated here); whether several occurrences of ONE reference object placed through '
+           'bind_parameter share one evaluation per consumer call (observed: they do, and the results are the same '
+           'object; both behaviours accepted); which exception a failing evaluation raises (C17); reference scopes '
+           'and ambient scopes other than the listed ones; real threads')
+ASSUMPTIONS = ['source values are symbolic ints routed through gin.constant (%vwc.V..); scope names, shapes and call '
+               'modes are finite pick() choices; texts are parsed and config strings compared natively',
+               'a method of an instance made through a SCOPED class reference is required to run under exactly the '
+               'reference scope (Gin wraps registered methods of the scoped class); for an unscoped reference the '
+               'plain class is delivered and its methods run under the scope active where they are called']
